@@ -1,7 +1,9 @@
 (* Executable model of libsigopt/compute/vectorized_optimizers.py (C07): VectorizedOptimizer.optimize /
    evaluate_and_monitor, DEOptimizer._optimize (best1bin / rand1bin), AdamOptimizer._optimize (bookkeeping with the
    per-iteration update vectors as an oracle; the moment formulas separately, with the square roots as an oracle),
-   and of the box / fixed-index part of compute/domain.py restriction.  No proofs here.  Values are exact rationals. *)
+   and of the box / fixed-index part of compute/domain.py restriction.  No proofs here.  Values are exact rationals; the
+   acquisition function is partial (point -> option Q): None stands for NaN, a point where the function has no value -
+   what the code's numpy.nanargmax skips. *)
 From Coq Require Import List QArith Bool Arith Qabs.
 Import ListNotations.
 Open Scope Q_scope.
@@ -67,7 +69,7 @@ Record state := mkst {
 }.
 Definition init : state := mkst None [] [].
 
-Record output := mkout { o_state : state; o_start : batch; o_end : batch; o_vals : list Q }.
+Record output := mkout { o_state : state; o_start : batch; o_end : batch; o_vals : list (option Q) }.
 Definition best_location (o : output) : option point := option_map fst (best (o_state o)).
 Definition best_value (o : output) : option Q := option_map snd (best (o_state o)).
 
@@ -81,28 +83,40 @@ Record de_par := mkde {
 Notation draws := (list (nat * nat * nat) * list (list Q))%type.
 
 Section Opt.
-  Variable af : point -> Q.                      (* deterministic acquisition function *)
+  Variable af : point -> option Q.               (* deterministic acquisition function; None: the value there is NaN (undefined) *)
   Variable restrict : nat -> batch -> batch.     (* k-th call of domain.restrict_points_to_domain (it may draw) *)
   Variable gen : nat -> batch.                   (* domain.generate_quasi_random_points_in_domain(k) *)
 
-  (* numpy.nanargmax on finite values: the first maximum *)
-  Fixpoint argmax_from (bp : point) (bv : Q) (l : batch) : point * Q :=
+  (* numpy.nanargmax: NaN entries are skipped, the first maximum of the others is taken; cur = what the scan holds so far
+     (None while every entry seen was NaN) *)
+  Fixpoint nanargmax_from (cur : option (point * Q)) (l : batch) : option (point * Q) :=
     match l with
-    | [] => (bp, bv)
-    | x :: r => if Qltb bv (af x) then argmax_from x (af x) r else argmax_from bp bv r
+    | [] => cur
+    | x :: r =>
+        match af x with
+        | None => nanargmax_from cur r
+        | Some v =>
+            match cur with
+            | None => nanargmax_from (Some (x, v)) r
+            | Some (_, bv) => if Qltb bv v then nanargmax_from (Some (x, v)) r else nanargmax_from cur r
+            end
+        end
     end.
 
   (* VectorizedOptimizer.evaluate_and_monitor *)
   Definition monitor (s : state) (pts : batch) : result state :=
     match pts with
     | [] => Err ValueError    (* nanargmax of an empty sequence *)
-    | x :: r =>
-        let now := argmax_from x (af x) r in
-        let b := match best s with
-                 | None => now
-                 | Some (bp, bv) => if Qltb bv (snd now) then now else (bp, bv)
-                 end in
-        Ok (mkst (Some b) (evals s ++ [pts]) (rins s))
+    | _ :: _ =>
+        match nanargmax_from None pts with
+        | None => Err ValueError        (* nanargmax: "All-NaN slice encountered" *)
+        | Some now =>
+            let b := match best s with
+                     | None => now
+                     | Some (bp, bv) => if Qltb bv (snd now) then now else (bp, bv)
+                     end in
+            Ok (mkst (Some b) (evals s ++ [pts]) (rins s))
+        end
     end.
 
   Definition do_restrict (s : state) (pts : batch) : state * batch :=
@@ -136,9 +150,9 @@ Section Opt.
   Definition us_ok (P : de_par) (us : list (list Q)) : bool :=
     Nat.eqb (length us) (de_n P) && forallb (fun r => Nat.eqb (length r) (de_dim P)) us.
 
-  (* the replacement rule: points[values >= self.best_value] = trials[...] *)
+  (* the replacement rule: points[values >= self.best_value] = trials[...]  (NaN >= x is False) *)
   Definition replace (bv : Q) (pop r : batch) : batch :=
-    map2 (fun p t => if Qle_bool bv (af t) then t else p) pop r.
+    map2 (fun p t => match af t with Some v => if Qle_bool bv v then t else p | None => p end) pop r.
 
   Definition de_step (P : de_par) (sp : state * batch) (d : draws) : result (state * batch) :=
     let '(s, pop) := sp in
